@@ -358,11 +358,111 @@ func init() {
 		ID: "C03",
 		Rules: []Rule{
 			{"X1", "in every streaming function, every return reachable from a CFG edge that establishes 'the buffer ended' (an upper bound on len(buf)), without first re-establishing an in-bounds guard, has verdict set {more-bytes} (E-ERR), unless the path passed a test of an end-of-input flag; callees invoked at the exhausted position are analysed under that fact", ruleX1},
+			{"X4", "no streaming function (continuation offset + more-bytes verdict) sets an end-of-input bit by itself: every constant it ORs into a flags value or passes on as a flags argument has POptInputEndF / SIPMsgNoMoreDataF clear", ruleX4},
 			{"X2", "len(buf) flows into an offset / field / call argument only in blocks dominated by the flag-set edge of an end-of-input flag test; one named exception: the body of a message without Content-Length", ruleX2},
 		},
 		Assumptions: []string{"a verdict that does not depend on the buffer having ended cannot change when the buffer grows (decided separately by the look-ahead guards, C04-G)"},
 		NotDecided:  "premature verdicts that do not involve the buffer end; equality of offsets and values on the extended buffer",
 	})
+}
+
+// X4: a streaming function (one that returns a continuation offset and may ask for more bytes) never switches
+// end-of-input mode on by itself: no constant it ORs into a flags value, and no constant flags argument it
+// passes on, has an end-of-input bit set. Only its caller knows whether the buffer is the whole input.
+func ruleX4(c *Ctx) {
+	e := newErrAnalysis(c.Prog)
+	n := 0
+	endBit := func(t types.Type) (string, int64, bool) {
+		want := ""
+		if strings.HasSuffix(t.String(), ".POptFlags") {
+			want = "POptInputEndF"
+		} else if bt, ok := t.Underlying().(*types.Basic); ok && bt.Kind() == types.Uint8 {
+			want = "SIPMsgNoMoreDataF"
+		}
+		if want == "" {
+			return "", 0, false
+		}
+		v, ok := c.namedConstInt(want)
+		return want, v, ok
+	}
+	for _, f := range streamingFuncs(c, e) {
+		if f.Signature.Results().Len() < 2 || !isIntType(f.Signature.Results().At(0).Type()) {
+			continue
+		}
+		fk := ssaKey(f)
+		cnt := 0
+		for _, b := range f.Blocks {
+			for _, ins := range b.Instrs {
+				var consts []*ssa.Const
+				what := ""
+				switch x := ins.(type) {
+				case *ssa.BinOp:
+					if x.Op != token.OR {
+						continue
+					}
+					for _, o := range []ssa.Value{x.X, x.Y} {
+						if k, ok := o.(*ssa.Const); ok {
+							consts = append(consts, k)
+						}
+					}
+					what = "ORs into a flags value"
+				case *ssa.Call:
+					cal := x.Call.StaticCallee()
+					if cal == nil || cal.Pkg != f.Pkg {
+						continue
+					}
+					for i, a := range x.Call.Args {
+						if k, ok := a.(*ssa.Const); ok && i < len(cal.Params) && (strings.HasSuffix(cal.Params[i].Type().String(), ".POptFlags") || strings.Contains(strings.ToLower(cal.Params[i].Name()), "flag")) {
+							consts = append(consts, k)
+						}
+					}
+					what = "passes to " + cal.Name() + "() as flags"
+				}
+				for _, k := range consts {
+					name, bit, ok := endBit(k.Type())
+					if !ok {
+						continue
+					}
+					v, isC := constIntOf(k)
+					if !isC {
+						continue
+					}
+					// uint8 constants: only those used as message flags (a callee flags parameter / flags-derived OR)
+					if name == "SIPMsgNoMoreDataF" {
+						if _, isCall := ins.(*ssa.Call); !isCall {
+							bo := ins.(*ssa.BinOp)
+							if !derivedFromFlagsParam(bo.X, 0) && !derivedFromFlagsParam(bo.Y, 0) {
+								continue
+							}
+						}
+					}
+					cnt++
+					n++
+					c.check(v&bit == 0, "X4", fmt.Sprintf("%s:flags-const#%d", fk, cnt), ins.Pos(), fmt.Sprintf("the constant %#x this streaming function %s has the end-of-input bit %s clear (only the caller may declare the buffer complete)", v, what, name))
+				}
+			}
+		}
+	}
+	c.check(n >= 5, "X4", "const-count", token.NoPos, fmt.Sprintf("%d flags constants in streaming functions inspected (frozen minimum 5)", n))
+}
+
+func derivedFromFlagsParam(v ssa.Value, depth int) bool {
+	if depth > 4 {
+		return false
+	}
+	switch x := v.(type) {
+	case *ssa.Parameter:
+		return strings.Contains(strings.ToLower(x.Name()), "flag")
+	case *ssa.BinOp:
+		return derivedFromFlagsParam(x.X, depth+1) || derivedFromFlagsParam(x.Y, depth+1)
+	case *ssa.Phi:
+		for _, e := range x.Edges {
+			if derivedFromFlagsParam(e, depth+1) {
+				return true
+			}
+		}
+	}
+	return false
 }
 
 // X2: len(buf) never becomes an offset outside end-of-input mode.
